@@ -1447,3 +1447,50 @@ func (c *Case) String() string {
 	return fmt.Sprintf("%s font %q n=%d upm=%d cmapKeys=%d gsub=%v gpos=%v gdef=%v labels=%v",
 		c.Kind, f.FamilyName, f.NumGlyphs(), f.UnitsPerEm, len(f.CMapTable), f.Gsub != nil, f.Gpos != nil, f.Gdef != nil, c.Labels)
 }
+
+// MixPairRecords gives the pair adjustment subtables of the font (GPOS 2.1) the
+// shape tables built in memory often have and tables read from files never
+// have: some pairs carry a second value record, others none, and a pair with
+// a second record may lack the first.  (The binary form has one value format
+// per subtable; an absent record is written as zeros.)  It reports whether a
+// subtable was changed.
+func MixPairRecords(t *rapid.T, f *sfnt.Font) bool {
+	if f.Gpos == nil {
+		return false
+	}
+	changed := false
+	for _, l := range f.Gpos.LookupList {
+		for _, st := range l.Subtables {
+			sub, ok := st.(gtab.Gpos2_1)
+			if !ok || len(sub) < 2 {
+				continue
+			}
+			pairs := make([]glyph.Pair, 0, len(sub))
+			for p := range sub {
+				pairs = append(pairs, p)
+			}
+			sort.Slice(pairs, func(i, j int) bool {
+				if pairs[i].Left != pairs[j].Left {
+					return pairs[i].Left < pairs[j].Left
+				}
+				return pairs[i].Right < pairs[j].Right
+			})
+			for i, p := range pairs {
+				// the first pair keeps its shape, so that the mixture is real
+				if i == 0 {
+					continue
+				}
+				switch rapid.IntRange(0, 3).Draw(t, "pairShape") {
+				case 0:
+					sub[p].Second = &gtab.GposValueRecord{XPlacement: funit.Int16(rapid.IntRange(-50, 50).Draw(t, "secondX"))}
+					changed = true
+				case 1:
+					sub[p].Second = &gtab.GposValueRecord{XAdvance: funit.Int16(rapid.IntRange(-50, 50).Draw(t, "secondAdv"))}
+					sub[p].First = nil
+					changed = true
+				}
+			}
+		}
+	}
+	return changed
+}
